@@ -126,10 +126,14 @@ structure Task where
   deriving Repr
 
 structure SpokFile where
-  dir : Str                        -- absolute directory of the spokfile
+  dir : Str                        -- absolute directory of the spokfile, where it really is
   vars : List (Str × Str)          -- evaluated variables
   tasks : List Task
-  deriving Repr
+  /-- `physical` of `cli/app/app.go` in the world of this run: a (clean, absolute) path with the symbolic links of its
+      DIRECTORY part resolved, the last element kept as written (`filepath.EvalSymlinks(Dir) + Base`) — the identity in a
+      tree without links.  It is also what the operating system does with the path handed to `os.RemoveAll`: the entry
+      removed is the last element in the directory the links lead to.  The file system `FS` below is the physical one. -/
+  phys : Str → Str
 
 def cacheDirName : Str := ['.', 's', 'p', 'o', 'k']
 def spokfileName : Str := ['s', 'p', 'o', 'k', 'f', 'i', 'l', 'e']
@@ -151,11 +155,14 @@ inductive Err where
   | taskFailed
   deriving DecidableEq, Repr
 
+/-- `filepath.Abs`, then where that really is -/
+def absP (sf : SpokFile) (cwd : Str) (s : Str) : Str := sf.phys (abs cwd s)
+
 /-- glob matches as `expandGlob` stores them -/
 def globTargets (sf : SpokFile) (cwd : Str) (g : GlobOut) : List Str :=
-  g.hits.map (fun m => abs cwd (join [sf.dir, m]))
+  g.hits.map (fun m => absP sf cwd (join [sf.dir, m]))
 
-def fileTarget (sf : SpokFile) (cwd : Str) (lit : Str) : Str := abs cwd (join [sf.dir, lit])
+def fileTarget (sf : SpokFile) (cwd : Str) (lit : Str) : Str := absP sf cwd (join [sf.dir, lit])
 
 /-- resolve, then `os.Stat` (a missing path, or one below a regular file, is not an error) -/
 def statted (fs : FS) (p : Str) : Except Err Str :=
@@ -164,7 +171,7 @@ def statted (fs : FS) (p : Str) : Except Err Str :=
 def namedTarget (sf : SpokFile) (cwd : Str) (fs : FS) (n : Str) : Except Err Str :=
   match lookupVar sf.vars n with
   | none => .error (.undefinedOutput n)
-  | some v => statted fs (abs cwd v)
+  | some v => statted fs (absP sf cwd v)
 
 /-- `mapM` in `Except`, first error wins -/
 def mapE {α β ε} (f : α → Except ε β) : List α → Except ε (List β)
@@ -192,7 +199,8 @@ def targets (sf : SpokFile) (cwd : Str) (fs : FS) : Except Err (List Str) :=
   | .error e => .error e
   | .ok per => .ok (per.flatten ++ [sf.cacheDir])
 
-/-- `containsSpokfile`: the path is the spokfile, or `filepath.Rel(path, spokfile)` does not climb, i.e.
+/-- `containsSpokfile` on paths that have been through `physical` (the targets above; the spokfile's own path is
+    physical by the convention on `dir`): the path is the spokfile, or `filepath.Rel(path, spokfile)` does not climb, i.e.
     the path is a prefix directory of the spokfile.  Every path handed to it is absolute (it came out
     of `filepath.Abs`); for a relative one `Rel` fails against the absolute spokfile path ⇒ false. -/
 def containsSpokfile (p : Str) (target : Str) : Bool :=
@@ -225,11 +233,11 @@ def handleClean (sf : SpokFile) (cwd : Str) (fs : FS) (taskRun : FS → FS × Bo
 
 /-! ## specification vocabulary used by the theorems and the judge -/
 
-/-- the paths a spokfile *designates* for `--clean`, as a relation -/
+/-- the paths a spokfile *designates* for `--clean`, as a relation: where the declared outputs really are -/
 inductive Designated (sf : SpokFile) (cwd : Str) : Str → Prop
-  | file {t o} : t ∈ sf.tasks → o ∈ t.fileOutputs → Designated sf cwd (abs cwd (join [sf.dir, o]))
-  | named {t n v} : t ∈ sf.tasks → n ∈ t.namedOutputs → lookupVar sf.vars n = some v → Designated sf cwd (abs cwd v)
-  | glob {t g m} : t ∈ sf.tasks → g ∈ t.globOutputs → m ∈ g.hits → Designated sf cwd (abs cwd (join [sf.dir, m]))
+  | file {t o} : t ∈ sf.tasks → o ∈ t.fileOutputs → Designated sf cwd (absP sf cwd (join [sf.dir, o]))
+  | named {t n v} : t ∈ sf.tasks → n ∈ t.namedOutputs → lookupVar sf.vars n = some v → Designated sf cwd (absP sf cwd v)
+  | glob {t g m} : t ∈ sf.tasks → g ∈ t.globOutputs → m ∈ g.hits → Designated sf cwd (absP sf cwd (join [sf.dir, m]))
   | cache : Designated sf cwd sf.cacheDir
 
 /-- the same as a list (named outputs whose variable is missing designate nothing) -/
@@ -237,7 +245,7 @@ def designatedList (sf : SpokFile) (cwd : Str) : List Str :=
   sf.tasks.flatMap (fun t =>
     t.globOutputs.flatMap (globTargets sf cwd) ++
     t.fileOutputs.map (fileTarget sf cwd) ++
-    t.namedOutputs.filterMap (fun n => (lookupVar sf.vars n).map (abs cwd)))
+    t.namedOutputs.filterMap (fun n => (lookupVar sf.vars n).map (absP sf cwd)))
   ++ [sf.cacheDir]
 
 /-- the spokfile, its directory, or anything above -/
@@ -246,5 +254,29 @@ def protectedPath (sf : SpokFile) (p : Path) : Bool := within p (pathOf sf.path)
 /-- what must be left of `fs` once every subtree of a designated path is gone -/
 def expectedAfter (fs : FS) (ds : List Str) : FS :=
   fs.filter (fun e => !ds.any (fun d => within (pathOf d) e.1))
+
+/-! ## `physical` in a world given by its symbolic links (path ↦ target string) -/
+
+def linkAt (links : List (Str × Str)) (p : Str) : Option Str := (links.find? (·.1 == p)).map (·.2)
+
+/-- the directory the components lead to, links followed (`filepath.EvalSymlinks` on an existing directory; where a
+    component does not exist both spellings name nothing, and nothing depends on which one is used) -/
+def resolveDir (links : List (Str × Str)) : Nat → List Str → Str → Str
+  | 0, _, cur => cur
+  | _ + 1, [], cur => cur
+  | fuel + 1, c :: rest, cur =>
+    let p := join [cur, c]
+    match linkAt links p with
+    | some t =>
+      let tgt := if isAbs t then clean t else join [cur, t]
+      resolveDir links fuel rest (resolveDir links fuel (segs tgt) ['/'])
+    | none => resolveDir links fuel rest p
+
+/-- `physical`: the directory part resolved, the last element as written -/
+def physOf (links : List (Str × Str)) (s : Str) : Str :=
+  match (segs s).reverse with
+  | [] => s
+  | base :: revDir => join [resolveDir links 64 revDir.reverse ['/'], base]
+
 
 end Spok.Clean
